@@ -60,6 +60,13 @@ class Circle:
         self.label = label
 
 
+class Table:
+    """unregistered; multi-line repr whose lines end in blanks"""
+
+    def __repr__(self):
+        return 'Table(\n| id  name  \n| 1   x     \n| 22  yy    \n)'
+
+
 class Reentrant:
     """its printer returns a contextual document whose evaluator calls pformat again at layout time"""
 
@@ -149,6 +156,11 @@ def setup():
         [Reentrant([1, 2, 3]), {'k': Reentrant({'b': 1, 'a': [2, 3]})}],
         {'old': OldStyle([1, 2, {'z': 1, 'a': 2}]), 'more': [OldStyle('x')] * 2},
     ]
+    VALUES.extend([
+        {'t': Table(), 'more': [Table()]},
+        [P.comment(1, 'one\n \ntwo'), P.trailing_comment([2, 3], 'ends with blanks   ')],
+        'trailing blanks   ' * 8,
+    ])
     REPR_CAPABLE[:] = [i for i, v in enumerate(VALUES) if isinstance(v, (Reg, Circle))]
 
 
@@ -157,7 +169,13 @@ def generate(rng, idx, tier):
     p_explicit = rng.choice([0.15, 0.4, 0.7])
     p_set = rng.choice([0.2, 0.5])
     for step in range(rng.randrange(3, 25)):
-        k = rng.choice(['set', 'set', 'get', 'call', 'call', 'call', 'call', 'faulty'])
+        k = rng.choice(['set', 'set', 'get', 'call', 'call', 'call', 'call', 'faulty', 'pp_new', 'pp_use', 'pp_use'])
+        if k == 'pp_new':
+            ops.append(['pp_new', {s_: rng.choice(DOM[s_]) for s_ in KEYS if rng.random() < p_explicit}])
+            continue
+        if k == 'pp_use':
+            ops.append(['pp_use', rng.randrange(4), rng.randrange(19), rng.choice(['pformat', 'pprint'])])
+            continue
         if k == 'set':
             sub = {s: rng.choice(DOM[s]) for s in SETTABLE if rng.random() < p_set}
             if rng.random() < 0.05:
@@ -167,7 +185,7 @@ def generate(rng, idx, tier):
             ops.append(['get'])
         else:
             entry = rng.choice(ENTRIES)
-            v = rng.randrange(len(VALUES) if VALUES else 16)
+            v = rng.randrange(len(VALUES) if VALUES else 19)
             explicit = {s: rng.choice(DOM[s]) for s in KEYS if rng.random() < p_explicit}
             end = rng.choice(ENDS)
             if k == 'faulty':
@@ -198,6 +216,7 @@ def execute(spec):
     res = dict(steps=len(spec['ops']), counters=counters, nontrivial=False,
                digest=core.digest_of(spec['ops']), **{'class': None})
     trace = []
+    keep = []       # persistent PrettyPrinter objects: (object, explicit settings)
 
     def bump(k):
         counters[k] = counters.get(k, 0) + 1
@@ -237,6 +256,45 @@ def execute(spec):
             trace.append(op)
             if got != model:
                 return fail('defaults_wrong', 'get', op=op, got=got)
+        elif k == 'pp_new':
+            # a PrettyPrinter object that lives on: its explicit settings are fixed now, whatever it
+            # leaves to the defaults must follow later set_default_config calls
+            try:
+                keep.append((P.PrettyPrinter(**dict(op[1])), dict(op[1])))
+            except Exception as e:
+                return fail('entry_raised', type(e).__name__, op=op, error=repr(e)[:300])
+            bump('op_pp_new')
+            trace.append(op)
+        elif k == 'pp_use':
+            if not keep:
+                continue
+            obj, explicit = keep[op[1] % len(keep)]
+            v = VALUES[op[2] % len(VALUES)]
+            eff = dict(model)
+            eff.update(explicit)
+            exp, how = _expected(v, eff)
+            bump('entry_persistent_PrettyPrinter_' + op[3])
+            if any(s_ not in explicit for s_ in changed_defaults):
+                res['nontrivial'] = True
+            st = SimStream()
+            old = sys.stdout
+            try:
+                try:
+                    if op[3] == 'pformat':
+                        got = obj.pformat(v)
+                    else:
+                        sys.stdout = st
+                        obj.pprint(v)
+                        got = st.text()
+                        exp = exp + '\n'
+                finally:
+                    sys.stdout = old
+            except Exception as e:
+                return fail('entry_raised', type(e).__name__, op=op, error=repr(e)[:300])
+            trace.append(op)
+            if got != exp:
+                return fail('text_differs', 'persistent_PrettyPrinter', op=op, got=got[:400], expected=exp[:400],
+                            effective=eff, constructed_with=explicit)
         elif k == 'call':
             _, entry, vi, explicit, end, fail_at, fault = op
             v = VALUES[vi]
